@@ -41,7 +41,7 @@ var one = big.NewInt(1)
 func zl(vs []*big.Int) string {
 	el := make([]string, len(vs))
 	for i, v := range vs {
-		el[i] = vh.Z(v)
+		el[i] = cosih.ZB(v)
 	}
 	return vh.List(el, "Z")
 }
@@ -53,7 +53,7 @@ func resZ(pan bool, err error, v *big.Int) string {
 	if err != nil {
 		return vh.Err("Z")
 	}
-	return vh.Ok(vh.Z(v))
+	return vh.Ok(cosih.ZB(v))
 }
 
 func resU(pan bool, err error) string {
@@ -101,7 +101,6 @@ func (r *runner) scenario() {
 		privs[i], kz[i] = cosih.SeedKey(kr)
 		p := privs[i].Public()
 		publics[i] = &p
-		T.PutPoint(kz[i])
 	}
 	badMasked := false
 	if cs.BadKey != "" && cs.BadIdx < cs.N {
@@ -138,7 +137,6 @@ func (r *runner) scenario() {
 		rkeys[i], rz[i] = rk, z
 		R := rk.Public()
 		randoms[i] = &R
-		T.PutPoint(z)
 		if cs.Kind == "commit-garbage" && pos == cs.Victim {
 			if cs.Aux%2 == 0 {
 				g := garbage
@@ -161,7 +159,7 @@ func (r *runner) scenario() {
 	sort.Ints(idxs)
 	var rsEl, commitsEl []string
 	for _, i := range idxs {
-		rsEl = append(rsEl, "("+vh.ZI(int64(i))+", "+vh.Z(rz[i])+")")
+		rsEl = append(rsEl, "("+vh.ZI(int64(i))+", "+cosih.ZB(rz[i])+")")
 	}
 	commitsEl = rsEl
 	var cosi *crypto.CosiSignature
@@ -172,7 +170,7 @@ func (r *runner) scenario() {
 		obs = vh.Pan("(N * N)")
 		r.fail("commit-panic", "CosiAggregateCommitment panicked")
 	} else if err == nil {
-		obs = vh.Ok("(" + vh.BytesAsN(cosi.Signature[:32]) + ", " + vh.NU(cosi.Mask) + ")")
+		obs = vh.Ok("(" + cosih.NBytes(cosi.Signature[:32]) + ", " + vh.NU(cosi.Mask) + ")")
 	}
 	rsTerm := vh.List(rsEl, "(Z * Z)")
 	r.out = append(r.out, &cosih.MCase{Kind: "commit", Key: "commit|" + key, Nontrivial: err == nil && !pan, JS: cs, T: T,
@@ -249,7 +247,9 @@ func (r *runner) scenario() {
 			sv = cosih.LEInt(s[:])
 			resp[i] = s
 		}
-		ops = append(ops, vh.App("OResponse", vh.Z(kzPriv(privs[i])), vh.Z(cosih.LEInt(rk[:])), resZ(p, e, sv)))
+		if modelOp(len(idxs), i, cs.Aux) {
+			ops = append(ops, vh.App("OResponse", cosih.ZB(kzPriv(privs[i])), cosih.ZB(cosih.LEInt(rk[:])), resZ(p, e, sv)))
+		}
 		if p {
 			r.fail("response-panic", "Response panicked on canonical inputs")
 			return
@@ -340,7 +340,7 @@ func (r *runner) scenario() {
 			noNil = false
 			continue
 		}
-		respEl = append(respEl, "("+vh.ZI(int64(i))+", "+vh.Some(vh.Z(cosih.LEInt(s[:])))+")")
+		respEl = append(respEl, "("+vh.ZI(int64(i))+", "+vh.Some(cosih.ZB(cosih.LEInt(s[:])))+")")
 		if !inMask(i) {
 			sameSet = false
 		}
@@ -370,9 +370,11 @@ func (r *runner) scenario() {
 		p, _ := vh.Catch(func() { e = cosi.VerifyResponse(publics, i, s, msg) })
 		st := vh.None("Z")
 		if s != nil {
-			st = vh.Some(vh.Z(cosih.LEInt(s[:])))
+			st = vh.Some(cosih.ZB(cosih.LEInt(s[:])))
 		}
-		ops = append(ops, vh.App("OVerifyResp", vh.ZI(int64(i)), st, resU(p, e)))
+		if modelOp(len(idxs), i, cs.Aux) || i == victim {
+			ops = append(ops, vh.App("OVerifyResp", vh.ZI(int64(i)), st, resU(p, e)))
+		}
 		if p {
 			r.fail("verify-response-panic", "VerifyResponse panicked")
 			continue
@@ -454,7 +456,6 @@ func (r *runner) scenario() {
 		v.r = cosih.Mod(new(big.Int).Add(sumR, big.NewInt(int64(1+cs.Bit))))
 		e := cosih.Enc(v.r)
 		copy(v.sig[:32], e[:])
-		T.PutPoint(v.r)
 		v.tamper = true
 		variants = append(variants, v)
 	case "msg":
@@ -478,7 +479,6 @@ func (r *runner) scenario() {
 			nk, nz := cosih.SeedKey(vh.NewRand(uint64(cs.Bit), "c13-sub"))
 			np := nk.Public()
 			v.keys[j], v.kz[j] = &np, nz
-			T.PutPoint(nz)
 			v.tamper = cs.Kind == "key-sub"
 			v.keysNew = true
 			variants = append(variants, v)
@@ -504,8 +504,8 @@ func (r *runner) scenario() {
 		if v.keysNew {
 			kt = vh.Some(zl(v.kz))
 		}
-		ops = append(ops, vh.App("OFullVerify", kt, vh.Z(v.r), vh.Z(cosih.LEInt(v.sig[32:])), vh.NU(v.mask),
-			vh.BytesAsN(v.msg[:]), vh.ZI(int64(v.t)), resU(p, e)))
+		ops = append(ops, vh.App("OFullVerify", kt, cosih.ZB(v.r), cosih.ZB(cosih.LEInt(v.sig[32:])), vh.NU(v.mask),
+			cosih.NBytes(v.msg[:]), vh.ZI(int64(v.t)), resU(p, e)))
 		if p {
 			r.fail("full-verify-panic", "FullVerify panicked")
 			continue
@@ -534,9 +534,18 @@ func (r *runner) scenario() {
 	kzTerm := zl(kz)
 	r.out = append(r.out, &cosih.MCase{Kind: cs.Kind, Key: key, Nontrivial: chalOK, JS: cs, T: T,
 		Build: func(t *cosih.Tables) string {
-			return vh.App("CFlow", t.EncTerm(), t.HashTerm(), kzTerm, vh.BytesAsN(msg[:]), vh.Z(sumR), "0%Z",
+			return vh.App("CFlow", t.EncTerm(), t.HashTerm(), kzTerm, cosih.NBytes(msg[:]), cosih.ZB(sumR), "0%Z",
 				vh.NU(mask), commitsTerm, opsTerm)
 		}})
+}
+
+// modelOp bounds the per-signer operations sent to the model for large signer
+// sets (the oracle still checks every signer): all when <= 6, else about 5.
+func modelOp(n, i, salt int) bool {
+	if n <= 6 {
+		return true
+	}
+	return (i*7+salt)%n < 5
 }
 
 func kzPriv(k crypto.Key) *big.Int { return cosih.LEInt(k[:]) }
